@@ -19,6 +19,14 @@ structure Cfg where
   searchNeedles : List String
   advPrefix : String
   advNeedles : List String
+  /-- `datetime.max` in µs on the harness' time axis: `timestamp + uncache_after` saturates there -/
+  tMax : Int
+  /-- `timedelta.max` in µs -/
+  tdMaxUs : Nat
+  /-- the first number of seconds `timedelta(seconds=n)` rejects (`days` would exceed 999999999) -/
+  tdLimitSec : Nat
+  /-- `sys.get_int_max_str_digits()`: `int()` raises `ValueError` on more digits (leading zeros count) -/
+  intMaxDigits : Nat
 deriving Repr, DecidableEq
 
 namespace Parse
@@ -53,27 +61,36 @@ def isDigit (c : Char) : Bool := '0' ≤ c && c ≤ '9'
 def digitsToNat (ds : List Char) : Nat := ds.foldl (fun acc c => acc * 10 + (c.toNat - 48)) 0
 
 /-- `max-age\s*=\s*(\d+)` (IGNORECASE) anchored at the head of the list -/
-def maxAgeAt (l : List Char) : Option Nat :=
+def maxAgeAt (l : List Char) : Option (List Char) :=
   if lowerL (l.take 7) == "max-age".toList then
     match (l.drop 7).dropWhile isWs with
     | '=' :: r =>
       let ds := (r.dropWhile isWs).takeWhile isDigit
-      if ds.isEmpty then none else some (digitsToNat ds)
+      if ds.isEmpty then none else some ds
     | _ => none
   else none
 
 /-- `CACHE_CONTROL_RE.search` -/
-def maxAgeSearch : List Char → Option Nat
+def maxAgeSearch : List Char → Option (List Char)
   | [] => none
   | h :: t => match maxAgeAt (h :: t) with
     | some n => some n
     | none => maxAgeSearch t
 
-/-- `extract_uncache_after`, in µs -/
+/-- `extract_uncache_after`, in µs: `timedelta(seconds=int(match[1]))`, saturating at `timedelta.max` when `int()`
+    refuses the digit string (more than `intMaxDigits` characters) or `timedelta` refuses the number -/
 def maxAgeUs (cfg : Cfg) (cacheControl : String) : Int :=
   match maxAgeSearch cacheControl.toList with
-  | some n => (n : Int) * 1000000
+  | some ds =>
+    if ds.length > cfg.intMaxDigits then (cfg.tdMaxUs : Int)
+    else if digitsToNat ds ≥ cfg.tdLimitSec then (cfg.tdMaxUs : Int)
+    else (digitsToNat ds : Int) * 1000000
   | none => (cfg.defaultMaxAgeSec : Int) * 1000000
+
+/-- the max-age that takes effect: `extract_valid_to` computes `timestamp + uncache_after` and saturates at
+    `datetime.max`, i.e. `valid_to = timestamp + min(uncache_after, datetime.max - timestamp)` -/
+def effMaxAge (cfg : Cfg) (ts : Int) (cacheControl : String) : Int :=
+  if ts + maxAgeUs cfg cacheControl > cfg.tMax then cfg.tMax - ts else maxAgeUs cfg cacheControl
 
 def locOk (pre : String) (needles : List String) (loc : String) : Bool :=
   pre.toList.isPrefixOf loc.toList && !(needles.any fun n => isInfix n loc)
@@ -108,27 +125,39 @@ def isV4 (h : List Char) : Bool :=
   let ps := splitOnC '.' h
   ps.length == 4 && ps.all octetOk
 
-def countDbl : List Char → Nat
-  | ':' :: ':' :: r => 1 + countDbl r
-  | _ :: r => countDbl r
-  | [] => 0
+def hextetOk (g : List Char) : Bool := !g.isEmpty && g.length ≤ 4 && g.all isHex
 
-def singleColonHead : List Char → Bool
-  | [':'] => true
-  | ':' :: c :: _ => c != ':'
-  | _ => false
+/-- `IPv6Address._ip_int_from_string` on the `:`-separated parts, without the embedded-IPv4 tail: 3 to 9 parts, every
+    non-empty part a hextet (1–4 hex digits); no empty part strictly inside ⇒ exactly 8 parts, none empty at the ends;
+    otherwise exactly one `::` (one empty part strictly inside), an empty first (last) part only as part of a
+    leading (trailing) `::`, and at most 7 hextets -/
+def v6PartsOk (parts : List (List Char)) : Bool :=
+  let n := parts.length
+  let empties := (parts.filter (·.isEmpty)).length
+  let firstEmpty := match parts.head? with
+    | some g => g.isEmpty
+    | none => false
+  let lastEmpty := match parts.getLast? with
+    | some g => g.isEmpty
+    | none => false
+  let secondEmpty := match (parts.drop 1).head? with
+    | some g => g.isEmpty
+    | none => false
+  let secondLastEmpty := match parts.dropLast.getLast? with
+    | some g => g.isEmpty
+    | none => false
+  let interior := empties - (if firstEmpty then 1 else 0) - (if lastEmpty then 1 else 0)
+  decide (3 ≤ n) && decide (n ≤ 9) && parts.all (fun g => g.isEmpty || hextetOk g) &&
+  (if interior == 0 then n == 8 && !firstEmpty && !lastEmpty
+   else interior == 1 && (!firstEmpty || secondEmpty) && (!lastEmpty || secondLastEmpty) && decide (n - empties ≤ 7))
 
-/-- IPv6 literal without embedded IPv4: hex groups of 1–4 digits, at most one `::`, optional `%zone` -/
+/-- `ip_address(host)` accepts `host` as IPv6: `addr` or `addr%zone` with a non-empty zone without `%`
+    (`_split_scope_id`) -/
 def isV6 (h : List Char) : Bool :=
-  let (addr, zoneOk) := match splitOnC '%' h with
-    | [a] => (a, true)
-    | [a, z] => (a, !z.isEmpty)
-    | _ => (h, false)
-  let gs := (splitOnC ':' addr).filter (!·.isEmpty)
-  let groupsOk := gs.all fun g => g.length ≤ 4 && g.all isHex
-  zoneOk && groupsOk && !(isInfixL ":::".toList addr) && !singleColonHead addr && !singleColonHead addr.reverse &&
-    (if countDbl addr == 0 then gs.length == 8 && (splitOnC ':' addr).length == 8
-     else countDbl addr == 1 && gs.length ≤ 7)
+  match splitOnC '%' h with
+  | [a] => v6PartsOk (splitOnC ':' a)
+  | [a, z] => !z.isEmpty && v6PartsOk (splitOnC ':' a)
+  | _ => false
 
 def ipVersion (loc : String) : Option Nat :=
   match afterScheme loc.toList with
@@ -156,9 +185,16 @@ def hget (h : Hdrs String) (lk : String) : Option String := (get? h lk).map (·.
 def skipHdr (cfg : Cfg) (lk : String) : Bool :=
   (!cfg.privatePrefix.isEmpty && cfg.privatePrefix.toList.isPrefixOf lk.toList) || cfg.ignored.contains lk
 
+/-- `str(int)` read back: optional `-`, then decimal digits -/
+def intOf (l : List Char) : Option Int :=
+  match l with
+  | '-' :: r => if !r.isEmpty && r.all isDigit then some (-(digitsToNat r : Int)) else none
+  | r => if !r.isEmpty && r.all isDigit then some (digitsToNat r : Int) else none
+
+/-- `_timestamp` (the harness writes the datetime as integer µs on its time axis) -/
 def tsOf (h : Hdrs String) : Int :=
   match hget h "_timestamp" with
-  | some v => v.toInt?.getD 0
+  | some v => (intOf v.toList).getD 0
   | none => 0
 
 def mkMsg (cfg : Cfg) (kind : Kind) (h : Hdrs String) : Msg String :=
@@ -174,7 +210,7 @@ def mkMsg (cfg : Cfg) (kind : Kind) (h : Hdrs String) : Msg String :=
     locOk := match loc with
       | some l => if isSearch then locOk cfg.searchPrefix cfg.searchNeedles l else locOk cfg.advPrefix cfg.advNeedles l
       | none => false
-    maxAge := maxAgeUs cfg ((hget h "cache-control").getD "")
+    maxAge := effMaxAge cfg (tsOf h) ((hget h "cache-control").getD "")
     hdrs := h }
 
 def ssdpDiscover : String := "\"ssdp:discover\""
